@@ -114,6 +114,31 @@ class Ctx:
                         tr = self.tracker.track(t.dest.local, is_bool=True)
                         out.append((b.idx, op, t.args[0], t.args[1], tr, t.sp))
                         break
+        out.extend(self._virtual_comparisons())
+        return out
+
+    def _virtual_comparisons(self):
+        """comparisons performed by a crate-local helper on its parameters, seen at the call site:
+        `ensure_not_older(old.version, new.version)?` counts as `old.version <= new.version` whose
+        'holds' edge is the Ok edge of the call (one level, Result-returning helpers)"""
+        out = []
+        crate = self.body.path.split("::")[0].lstrip("<")
+        for bb, t in self.body.calls():
+            callee = t.resolved or t.callee
+            if not callee or not callee.startswith(crate + "::") or "{closure" in callee:
+                continue
+            summ = guard_summary(self.prog, callee)
+            if not summ:
+                continue
+            tr = self.tracker.track(t.dest.local)
+            if not tr.pos_edges(0):
+                continue
+            for (op, i, fi, j, fj) in summ:
+                if i >= len(t.args) or j >= len(t.args):
+                    continue
+                a = VOperand(t.args[i], fi)
+                b = VOperand(t.args[j], fj)
+                out.append((bb, op, a, b, tr, t.sp))
         return out
 
     def describe_path(self, path):
@@ -387,3 +412,94 @@ def matches_guard(ctx, value_edges):
     return out
 
 
+
+
+class VOperand:
+    """an argument of a helper call together with the field path the helper reads from it"""
+
+    def __init__(self, operand, extra_fields):
+        self.k = operand.k
+        self.j = operand.j
+        self.place = operand.place
+        self.extra_fields = tuple(("n", f) for f in extra_fields)
+
+    @property
+    def is_const(self):
+        return self.k == "const"
+
+    @property
+    def fn(self):
+        return self.j.get("fn")
+
+    @property
+    def const_str(self):
+        return None
+
+    @property
+    def const_int(self):
+        b = self.j.get("bits")
+        return int(b) if b is not None else None
+
+    def __repr__(self):
+        return "arg(%r)%s" % (self.place, "".join("." + f[1] for f in self.extra_fields))
+
+
+_NEG = {"le": "gt", "lt": "ge", "ge": "lt", "gt": "le", "eq": "ne", "ne": "eq"}
+_SUMM = {}
+_SUMM_BUSY = set()
+
+
+def guard_summary(prog, callee):
+    """[(op, param index i, fields read from i, param index j, fields from j)] such that the helper
+    returns Ok only if `p_i.fields op p_j.fields` holds"""
+    key = (id(prog), callee)
+    if key in _SUMM:
+        return _SUMM[key]
+    if key in _SUMM_BUSY:
+        return []
+    _SUMM_BUSY.add(key)
+    out = []
+    try:
+        ctx = async_body(prog, callee) or ctx_of(prog, callee)
+        if ctx is not None and len(ctx.body.blocks) < 400:
+            okb = ctx.ok_return_blocks()
+            if okb:
+                real = []
+                for b in ctx.body.blocks:
+                    if b.cleanup:
+                        continue
+                    for s in b.stmts:
+                        if s.k == "assign" and s.rv.k == "bin" and s.rv.j["op"] in CMP_BIN and not s.place.proj:
+                            real.append((CMP_BIN[s.rv.j["op"]], s.rv.ops[0], s.rv.ops[1], ctx.tracker.track(s.place.local, is_bool=True)))
+                    t = b.term
+                    if t is not None and t.k == "call":
+                        for name, op in CMP_CALLS.items():
+                            if t.is_call_to(name) and len(t.args) == 2:
+                                real.append((op, t.args[0], t.args[1], ctx.tracker.track(t.dest.local, is_bool=True)))
+                                break
+                is_async = ctx.body.kind == "Closure"
+                for (op, a, b_, tr) in real:
+                    oa, ob = ctx.origins.of_operand(a), ctx.origins.of_operand(b_)
+                    if len(oa) != 1 or len(ob) != 1:
+                        continue
+                    xa, xb = next(iter(oa)), next(iter(ob))
+                    want = "upvar" if is_async else "param"
+                    if xa.kind != want or xb.kind != want:
+                        continue
+                    ia = xa.key[0] if is_async else xa.key[0] - 1
+                    ib = xb.key[0] if is_async else xb.key[0] - 1
+                    if is_async:
+                        fb = prog.body(short_fn(ctx.body.path))
+                        names = {n: p.local - 1 for n, p, a_ in fb.vdi if not p.proj and 1 <= p.local <= fb.argc} if fb else {}
+                        if xa.key[1] not in names or xb.key[1] not in names:
+                            continue
+                        ia, ib = names[xa.key[1]], names[xb.key[1]]
+                    pos, neg = tr.pos_edges(0), tr.neg_edges(0)
+                    if pos and ctx.cfg.witness_path(okb, pos) is None:
+                        out.append((op, ia, xa.fields, ib, xb.fields))
+                    elif neg and ctx.cfg.witness_path(okb, neg) is None:
+                        out.append((_NEG[op], ia, xa.fields, ib, xb.fields))
+    finally:
+        _SUMM_BUSY.discard(key)
+    _SUMM[key] = out
+    return out
